@@ -294,19 +294,23 @@ impl Gen {
           id += 1;
           continue;
         }
+        // borrowed or owned handle (an owned one clones the arena value its thread uses)
+        let owned = if self.rng.chance(30) { "_owned" } else { "" };
         let line = match self.rng.weighted(&[50, 25, 25]) {
           0 => {
-            let n = if self.rng.chance(6) { 0 } else { self.rng.range(1, 64) };
-            format!("alloc_bytes {id} {n}")
+            // (zero-size requests only through the borrowed entry points: the owned ones convert a null handle, whose
+            // drop makes accesses of its own that the step machine does not have)
+            let n = if owned.is_empty() && self.rng.chance(6) { 0 } else { self.rng.range(1, 64) };
+            format!("alloc_bytes{owned} {id} {n}")
           }
           1 => {
             let (a, s) = self.pick_ty(80);
-            let s = if self.rng.chance(15) { 0 } else { s };
-            format!("alloc_aligned {id} {a} {s} {}", self.rng.range(0, 24))
+            let s = if owned.is_empty() && self.rng.chance(15) { 0 } else { s };
+            format!("alloc_aligned{owned} {id} {a} {s} {}", self.rng.range(if owned.is_empty() { 0 } else { 1 }, 24))
           }
           _ => {
             let (a, s) = self.pick_ty(80);
-            format!("alloc_t {id} {a} {s}")
+            format!("alloc_t{owned} {id} {a} {s}")
           }
         };
         ops.push(line);
